@@ -193,6 +193,18 @@ def run_case(case):
         ov = case['override']
         t_ov = tdoc.render(ov)
         ov_plain = yaml.safe_load(tdoc.render(ov, erase=True))
+        def neg_key_below_list(n, below=False):
+            if n['t'] == 'map':
+                if below and any(isinstance(k, int) and k < 0 for k, _ in n['items']):
+                    return True
+                return any(neg_key_below_list(v, below) for _, v in n['items'])
+            if n['t'] == 'seq':
+                return any(neg_key_below_list(v, True) for v in n['items'])
+            return False
+        if neg_key_below_list(ov):
+            # a mapping inside a list of the override replaces what was there together with the list (it is not merged onto an
+            # older list), so a negative key is a new mapping key, not an index: whether "a[0][-1]" then "exists" is not stated
+            return Outcome(labels=['skip-negative-key-in-replaced-list'])
         W = restricted(ov)
         missing = [p for p in W if not exists(sofar, p)]
         if any(len(p) >= 2 for p in missing):
